@@ -22,6 +22,20 @@ def parse_group(s):
     return g
 
 
+def canon(line, tie):
+    """Canonical form of 'full || filtered' for the model/implementation comparison: under a tie for the largest lag the
+    identity of the max-lag partition is replaced by its lag."""
+    if not tie:
+        return line
+    out = []
+    for v in line.split(" || ")[:2]:
+        g = parse_group(v)
+        ml = "-" if g["maxlag"] is None else "maxlag-with-lag-" + g["maxlag"][7]
+        out.append("G %d %d %d %d M %s P %d %s" % (g["status"], g["complete"], g["total"], g["totallag"], ml, len(g["parts"]),
+                                                    " ".join(" ".join(p) for p in g["parts"])))
+    return " || ".join(out)
+
+
 def oracle(gcase, allg, filtg):
     """The property's own statement evaluated on the implementation's output (its own partition list)."""
     errs = []
@@ -101,7 +115,10 @@ def run(chk, failed):
         errs = oracle(g, allg, filtg)
         if pa[2].split()[1] != "1":
             errs.append("serving the filtered view changed what a later full request sees")
-        mismatch = " || ".join(pa[:2]) != b
+        # Which of several partitions TIED for the largest lag max-lag names is not fixed by the property ("names a listed
+        # partition with the largest current lag"): with a tie the max-lag entry is compared by its lag only (the oracle above
+        # has already checked that it is a listed partition carrying the maximum).
+        mismatch = canon(" || ".join(pa[:2]), tie) != canon(b, tie)
         if i in (0, len(cases) // 2, len(cases) - 1):
             chk.sample({"case": c, "impl": a, "model": b})
         if errs or mismatch:
@@ -151,7 +168,9 @@ def replay(path):
     if pa[2].split()[1] != "1":
         errs.append("serving the filtered view changed what a later full request sees")
     print("oracle: " + ("; ".join(errs) if errs else "holds"))
-    return 1 if errs or " || ".join(pa[:2]) != model[0] else 0
+    lags = sorted(int(p[7]) for p in allg["parts"])
+    tie = len(lags) >= 2 and lags[-1] == lags[-2]
+    return 1 if errs or canon(" || ".join(pa[:2]), tie) != canon(model[0], tie) else 0
 
 
 def _topics_of(case):
